@@ -1,5 +1,6 @@
-From Verif Require Import Lib.Sx Model.Total.
+From Verif Require Import Lib.Sx Model.Total Proofs.TotalCostDef.
 Require Extraction.
 Require Import ExtrOcamlBasic.
-Definition run := run_c07.
+(* run_c07, plus the cost cases (5 ...) of Proofs/TotalCostDef.v used by the cost-vs-CPU comparison *)
+Definition run (c : sx) : sx := match cost_case c with Some r => r | None => run_c07 c end.
 Extraction "model.ml" run.
